@@ -2582,7 +2582,7 @@ fn all_flood_scenarios() -> Vec<String> {
     ["get secret", "set public1 y", "keys", "rp 1 get secret", "increment sea 1", "watch secret", "get $$secret", "nosuch"].iter().map(|c| format!("130|{}", c)).collect()
 }
 fn all_lines_scenarios() -> Vec<String> {
-    let mut nest: Vec<String> = vec!["NEST|2".into(), "NEST|400".into(), "NEST|20000".into()];
+    let mut nest: Vec<String> = vec!["NEST|2".into(), "NEST|400".into(), "NEST|20000".into(), "NEST|2n".into(), "NEST|400n".into(), "NEST|20000n".into(), "NEST|400nn".into()];
     // the read-only debug sub-commands with arguments at the edges of the integer types (the sub-commands that start elections or change roles are left out)
     for sub in ["pending-ops", "pendding-conflitcts", "list-dbs", "process-info", "nosuch"] { for arg in ["", " 0", " 1", " -1", " 18446744073709551615", " 4294967296", " 9223372036854775808", " x", " 1 2 3"] {
         nest.push(format!("CHILD|debug {}{}", sub, arg)); } }
@@ -2760,13 +2760,16 @@ fn main() {
         "nest-child" => {
             // one hostile line in a process of its own (a stack overflow cannot be caught in process): `rp 1 rp 1 ... get k`, nested <label> times, handled by a thread with the
             // default stack of a spawned thread - the way the TCP transport serves a connection.  Exit 0: the node answered and still serves a second client
-            let n: usize = label.parse().unwrap_or(10);
+            // `<n>`: `rp 1 rp 1 ...`;  `<n>n`: a line feed in front of every nested wrapper (`rp 1 \nrp 1 \n...`: process_request strips it before parsing - the first repair
+            // looked at the raw text and was bypassed this way);  `<n>s`: a `;` after the innermost command
+            let variant = label.trim_start_matches(|c: char| c.is_ascii_digit()).to_string();
+            let n: usize = label.trim_end_matches(|c: char| !c.is_ascii_digit()).parse().unwrap_or(10);
             let w = mk_world(0);
             let dbs = w.dbs.clone();
             let h = std::thread::spawn(move || {
                 let (mut c, mut rx) = Client::new_empty_and_receiver();
                 let mut line = String::new();
-                for _ in 0..n { line.push_str("rp 1 "); }
+                for _ in 0..n { line.push_str(if variant == "n" { "rp 1 \n" } else if variant == "nn" { "rp 1 \n\n" } else { "rp 1 " }); }
                 line.push_str("get public1");
                 let w2 = World { dbs };
                 let _ = run_cmd(&w2, &mut c, &mut rx, &line);
